@@ -328,3 +328,86 @@ Definition nontrivial (k : ccase) : bool :=
   end.
 
 Definition count_nontrivial (l : list ccase) : nat := count_true (map nontrivial l).
+
+(* ---------- several contexts in one frame; histories ---------- *)
+
+(* what extract_iter appends to save_errors when fill_context raises *)
+Inductive ferr := FLoop (m : nat) (next : ures) | FHook (w : who).
+
+Definition final_ctx (x : outcome) : ctx :=
+  match x with Done c | RaisedLoop c _ | RaisedHook _ c => c end.
+Definition err_of (x : outcome) : option ferr :=
+  match x with
+  | Done _ => None
+  | RaisedLoop c r => Some (FLoop (obj c) r)
+  | RaisedHook w _ => Some (FHook w)
+  end.
+
+(* extract_iter:  for context in frame.contexts:
+                      try: fill_context(context)
+                      except Exception as ex: save_errors.append(ex)
+   contexts so far (newest first), errors so far (newest first), hook calls so far *)
+Fixpoint frame_loop (cf : cfg) (o : opts) (cs : list ctx) (done_rev : list ctx)
+         (errs_rev : list ferr) (log : list ev) : list ctx * list ferr * list ev :=
+  match cs with
+  | [] => (rev done_rev, rev errs_rev, log)
+  | c :: r =>
+      let '(x, l, _) := fill cf o c in
+      frame_loop cf o r (final_ctx x :: done_rev)
+                 (match err_of x with Some e => e :: errs_rev | None => errs_rev end) (log ++ l)
+  end.
+
+Definition frame_result := (list ctx * list ferr * list ev)%type.
+
+(* the contexts of one frame during extract(with_contexts=True, recurse_child_tasks=rc) *)
+Definition frame_fill (cf : cfg) (rc : bool) (cs : list ctx) : frame_result :=
+  frame_loop cf (Some (true, rc)) cs [] [] [].
+
+Definition ferr_eqb (a b : ferr) : bool :=
+  match a, b with
+  | FLoop m r, FLoop m' r' => (m =? m') && ures_eqb r r'
+  | FHook w, FHook w' => who_eqb w w'
+  | _, _ => false
+  end.
+
+Definition frame_result_eqb (a b : frame_result) : bool :=
+  let '(c, e, l) := a in let '(c', e', l') := b in
+  list_eqb ctx_eqb c c' && list_eqb ferr_eqb e e' && list_eqb ev_eqb l l'.
+
+(* A history is a sequence of steps over the same managers; between steps hooks may get
+   registered, generator-based managers entered.  Each step carries the hook tables as they
+   are AT THAT TIME (printed by the harness from the descriptor's history, not from the
+   implementation), so the model's answer for step k depends on the registry at time k only. *)
+Inductive hstep :=
+  | SFill (k : ccase)
+  | SFrame (cf : cfg) (rc : bool) (cs : list ctx) (observed : frame_result).
+
+Definition hcase := list hstep.
+
+Definition step_ok (s : hstep) : bool :=
+  match s with
+  | SFill k => case_ok k
+  | SFrame cf rc cs observed => frame_result_eqb (frame_fill cf rc cs) observed
+  end.
+
+Definition hcase_ok (h : hcase) : bool := forallb step_ok h.
+
+Definition hmismatches (l : list hcase) : list nat := false_indices 0 (map hcase_ok l).
+
+(* non-trivial history: some single fill is non-trivial, or some frame holds a context
+   after one whose fill failed *)
+Fixpoint later_after_failure (cf : cfg) (o : opts) (cs : list ctx) : bool :=
+  match cs with
+  | [] => false
+  | c :: r =>
+      (is_raise (fst (fst (fill cf o c))) && negb (Nat.eqb (length r) 0)) || later_after_failure cf o r
+  end.
+
+Definition step_nontrivial (s : hstep) : bool :=
+  match s with
+  | SFill k => nontrivial k
+  | SFrame cf rc cs _ => later_after_failure cf (Some (true, rc)) cs
+  end.
+
+Definition hcount_nontrivial (l : list hcase) : nat :=
+  count_true (map (fun h => existsb step_nontrivial h) l).
